@@ -72,7 +72,8 @@ def run(ctx, env):
             if c.npath in ("std::vec::Vec::push",):
                 npush += 1
                 v = peel(an.op(body, t["args"][1]))
-                if v[0] == "agg" and v[1] == "NetflowPacket" and v[2] == "Error":
+                vx = peel(an.opx(body, t["args"][1]))       # private constructor helpers inlined
+                if vx[0] == "agg" and vx[1] == "NetflowPacket" and vx[2] == "Error":
                     ctx.ob("R11.2", body.path, "push:error-element", True, "Error element appended", site=body.line(blk))
                     continue
                 okv = v[0] == "field" and v[2] == "result" and peel(v[1])[0] == "ok"
